@@ -19,9 +19,23 @@ MANIFEST = {
             "handler), deferred_retransmission_acked, reply_shape_any_history; tied by differential runs of 2-5 datagrams from up "
             "to 3 peers at one context with handlers that defer their response (coap_register_async). The handlers the resource "
             "constructors register by themselves are regenerated and proved to be the documented ones (constructor_presets_match_api); "
-            "the executable S escapes every byte RFC 3986 requires, whatever the implementation's table says (escape_restrict_id).",
-    "note": "Sequences: the delayed invocation of a deferred request (coap_check_async) and the separate response itself are not "
-            "modelled; earlier datagrams of a sequence only defer or answer directly. Partial: proxy forwarding itself (coap_proxy.c) is outside the model — the proxy resource's handler is treated as an "
+            "the executable S escapes every byte RFC 3986 requires, whatever the implementation's table says (escape_restrict_id). "
+            "Deferred responses (coap_async.c, Model/Async.lean: entry list, stored request copy, delay / trigger, session "
+            "references, idle-session reaper, coap_check_async from the I/O step): for every event sequence of request "
+            "datagrams, time steps, coap_async_trigger / _set_delay / coap_free_async — coap_check_async hands to the "
+            "application exactly the entries whose time has come, each once, with exactly the stored request, and removes them "
+            "(async_fires_exactly_the_due, async_fired_were_registered); its return value is not later than the earliest deadline "
+            "(async_wait_le_earliest_deadline); at most one entry per (session, token) (async_one_entry_per_session_token); a "
+            "retransmission of a deferred request registers nothing and gets an Empty ACK only "
+            "(async_retransmission_no_second_entry, async_retransmission_acked_only). Tied by differential runs (op asq) of the "
+            "real coap_register_async / coap_check_async / coap_async_trigger / coap_async_set_delay / coap_free_async on the "
+            "virtual clock against the model, event by event (transmissions, handler calls, the entry list with the stored "
+            "request, session reference counts, the reported wait), plus an oracle that reads the property off the "
+            "implementation's own report.",
+    "note": "Deferred responses: the session reference balance (one reference per entry, no entry of a freed session) is "
+            "checked on every run by the oracle and against the model but not yet proved for all sequences; a delayed invocation "
+            "whose handler sets no code (D13), requests with an Observe option and the proxy-URI resource are outside the "
+            "async machine's scope. Partial: proxy forwarding itself (coap_proxy.c) is outside the model — the proxy resource's handler is treated as an "
             "application handler (Empty ACK + separate CON response), coap_split_proxy_uri is an oracle; handler verdicts of 5.08, "
             "requests with a registered OSCORE option, libcoap-managed block transfer (block mode 0 only) and Empty/response codes "
             "are out of scope; the /.well-known/core listing is opaque (C20). Trusted: Lean kernel (+ propext, Classical.choice, "
@@ -390,6 +404,221 @@ def gen_seq(rng):
     return "srvq " + cfg_words((mpr, mts, []), (res, unk, prx)) + " " + " ".join(steps)
 
 
+# ---- deferred responses (coap_async.c): schedules of defer / time / trigger / set_delay / free / retransmission (op `asq`)
+ASQ_DELAYS = [0, 0, 0, 1, 10, 100, 100, 500, 1000, 2500]
+ASQ_DTS = [0, 0, 1, 9, 10, 99, 100, 101, 499, 500, 999, 1000, 1001, 2000, 2500, 3000, 5000]
+
+
+def asq_verdict(rng):
+    while True:
+        v = gen_verdict(rng)
+        if v.startswith("168:"):
+            continue
+        if v.startswith("0:") and rng.random() < 0.9:
+            continue
+        return v
+
+
+def gen_async(rng):
+    res, unk, _ = gen_table(rng)
+    res = [r for r in res if r[0] != b".well-known/core"]
+    if not any(r[1] for r in res):
+        res = [r for r in res if r[0] != b"a"] + [(b"a", 127, 0, int(rng.random() < 0.3))]
+    mpr = int(rng.random() < 0.15)
+    mts = rng.choice([8, 8, 8, 16])
+    toks = [G.rbytes(rng, rng.choice([0, 1, 1, 2, 4, 8])) for _ in range(rng.choice([1, 2, 2, 3]))]
+    if rng.random() < 0.3 and toks[0]:
+        toks.append(toks[0][:-1]); toks.append((toks[0] + b"\x00")[:8])
+    mids = [rng.randint(0, 0xFFFF) for _ in range(3)]
+    peers = rng.sample(range(16), rng.choice([1, 2, 2, 3]))
+    tmo = rng.choice([1, 1, 2, 3])
+    evs, sent, nent = [], [], 0
+    for _ in range(rng.choice([3, 4, 5, 6, 8, 10])):
+        c = rng.random()
+        if c < 0.45 or not evs:
+            if sent and rng.random() < 0.3:
+                # a retransmission (same peer, same bytes; sometimes a fresh message id / another peer with the same bytes)
+                peer, dg = rng.choice(sent)
+                if rng.random() < 0.3: dg = dg[:2] + bytes([rng.randrange(256), rng.randrange(256)]) + dg[4:]
+                if rng.random() < 0.15: peer = rng.choice(peers)
+            else:
+                typ, code, mid, tok, opts, pl, puw = seq_request(rng, res, unk, None, toks, mids, aim=rng.random() < 0.85)
+                opts = [(n, v) for n, v in opts if n not in (35, 39)]
+                if rng.random() < 0.12:
+                    opts = sorted([(n, v) for n, v in opts if n != 16] + [(16, bytes([rng.choice([0, 1, 2, 2, 3, 255])]))], key=lambda o: o[0])
+                peer, dg = rng.choice(peers), G.encode("udp", typ, code, mid, tok, opts, pl)
+                sent.append((peer, dg))
+            act = "d%d" % rng.choice(ASQ_DELAYS) if rng.random() < 0.7 else "r"
+            evs.append("rx %d %s %s %s" % (peer, act, asq_verdict(rng), hx(dg)))
+            nent += 1
+        elif c < 0.78:
+            evs.append("io %d %s" % (rng.choice(ASQ_DTS), asq_verdict(rng)))
+        elif c < 0.87:
+            evs.append("tr %d" % rng.choice([0, 0, 1, 2]))
+        elif c < 0.94:
+            evs.append("sd %d %d" % (rng.choice([0, 0, 1, 2]), rng.choice(ASQ_DELAYS)))
+        else:
+            evs.append("fr %d" % rng.choice([0, 0, 1, 2]))
+    if rng.random() < 0.7:
+        evs.append("io %d %s" % (rng.choice([1000, 3000, 5000]), asq_verdict(rng)))
+    return "asq " + cfg_words((mpr, mts, []), (res, unk, None)) + " %d " % tmo + " ".join(evs)
+
+
+def asq_events(line):
+    """the events of an `asq` line: (kind, words)"""
+    w = line.split()[8:]
+    out, i = [], 0
+    size = {"rx": 5, "io": 3, "tr": 2, "sd": 3, "fr": 2}
+    while i < len(w):
+        k = size.get(w[i])
+        if not k or i + k > len(w):
+            return None
+        out.append((w[i], w[i + 1:i + k])); i += k
+    return out
+
+
+ASQ_RE = re.compile(r"^tx=(\S+) h=(\S+) a=(\S+) s=(\S+) w=(\S+)$")
+
+
+def asq_entries(a):
+    out = []
+    if a == "-":
+        return out
+    for e in a.split("/"):
+        f = e.split(":")
+        if len(f) != 9:
+            raise ValueError(e)
+        out.append({"id": int(f[0]), "peer": int(f[1]), "delay": int(f[2]), "K": f[3], "code": f[4], "mid": int(f[5]), "tok": f[6],
+                    "opts": f[7], "pl": f[8], "raw": e})
+    return out
+
+
+def judge_async_spec(line, impl):
+    """the property read off the implementation's own report, independently of M: at most one entry per (session, token);
+    session reference count = number of entries of the session; an entry that is due is handed to the application exactly
+    once, at or after its time, with exactly the stored request, by the handler that deferred it, and is gone afterwards;
+    nothing is handed over for an entry that is not due or not registered any more; a retransmission of a deferred request
+    is acknowledged (CON) / ignored (NON) and changes nothing; the reported wait is not later than the earliest deadline"""
+    evs = asq_events(line)
+    if evs is None:
+        return None
+    outs = impl.split(SEP)
+    now, prev, prevraw, fired, regcall, regdg = 1000, [], "-", set(), {}, {}
+    for k, ((kind, w), o) in enumerate(zip(evs, outs)):
+        m = ASQ_RE.match(o)
+        if not m:
+            return None
+        tx, h, a, ss, wt = m.groups()
+        where = "event %d (%s): " % (k + 1, kind)
+        try:
+            ents = asq_entries(a)
+            sess = dict((int(x.split(":")[0]), int(x.split(":")[1])) for x in ss.split("/")) if ss != "-" else {}
+        except ValueError:
+            return ("spec", where + "unreadable state " + short(o))
+        calls = [] if h == "-" else h.split("/")
+        if kind == "io":
+            now += int(w[0])
+        # at most one entry per (session, token)
+        keys = [(e["peer"], e["tok"]) for e in ents]
+        if len(set(keys)) != len(keys) or len(set(e["id"] for e in ents)) != len(ents):
+            return ("spec", where + "two entries for one (session, token): " + a)
+        # one session reference per entry, entries only of live sessions
+        for e in ents:
+            if e["peer"] not in sess:
+                return ("spec", where + "entry %d refers to a session that is gone: a=%s s=%s" % (e["id"], a, ss))
+        for p_, r_ in sess.items():
+            if r_ != sum(1 for e in ents if e["peer"] == p_):
+                return ("spec", where + "session %d holds %d references for %d entries: a=%s s=%s" % (
+                    p_, r_, sum(1 for e in ents if e["peer"] == p_), a, ss))
+        # delayed invocations
+        due = [e for e in prev if e["delay"] != 0 and e["delay"] <= now] if kind in ("rx", "io") else []
+        dueids = [e["id"] for e in due]
+        seen = []
+        for c in calls:
+            if not c.startswith("re"):
+                continue
+            rid, call = c[2:].split(">", 1)
+            rid = int(rid)
+            e = next((x for x in prev if x["id"] == rid), None)
+            if e is None or rid in fired:
+                return ("spec", where + "entry %d handed to the application although it is not registered (any more)" % rid)
+            if rid not in dueids:
+                return ("spec", where + "entry %d handed to the application at %d, its time is %d" % (rid, now, e["delay"]))
+            if rid in seen:
+                return ("spec", where + "entry %d handed to the application twice" % rid)
+            seen.append(rid)
+            f = call.split(":")
+            if len(f) != 6 or (f[1], f[4], f[5]) != (e["code"], e["opts"], e["pl"]):
+                return ("spec", where + "entry %d: the application is handed %s, the stored request is %s" % (rid, call, e["raw"]))
+            if rid in regcall and regcall[rid] != call:
+                return ("spec", where + "entry %d: deferred by %s, handed over again as %s" % (rid, regcall[rid], call))
+        for rid in dueids:
+            if rid not in seen:
+                return ("spec", where + "entry %d is due (time %d, now %d) and was not handed to the application" % (
+                    rid, next(x["delay"] for x in prev if x["id"] == rid), now))
+            if any(e["id"] == rid for e in ents):
+                return ("spec", where + "entry %d is still registered after its delayed invocation" % rid)
+            fired.add(rid)
+        # a retransmission of a deferred request
+        if kind == "rx":
+            dg = bytes.fromhex(w[3]) if w[3] != "-" else b""
+            key = (int(w[0]), dg[:2] + dg[4:])
+            live = [i_ for i_, kk in regdg.items() if kk == key and any(e["id"] == i_ for e in prev) and i_ not in dueids]
+            if live and len(dg) >= 4:
+                want = "A:0:%d:-:-:-" % (dg[2] << 8 | dg[3]) if (dg[0] >> 4 & 3) == 0 else "-"
+                own = [c for c in calls if not c.startswith("re")]
+                if own or (not dueids and (a != prevraw or tx != want)) or (dueids and want != "-" and not tx.startswith(want)):
+                    return ("spec", where + "retransmission of the deferred request %d: %s (expected %s, no handler, no change)" % (
+                        live[0], short(o), want))
+            new = [e for e in ents if not any(x["id"] == e["id"] for x in prev)]
+            if len(new) > 1:
+                return ("spec", where + "more than one new entry: " + a)
+            for e in new:
+                own = [c for c in calls if not c.startswith("re")]
+                if len(own) != 1 or w[1] == "r":
+                    return ("spec", where + "entry %d registered without a deferring handler call: %s" % (e["id"], short(o)))
+                regcall[e["id"]] = own[0]
+                regdg[e["id"]] = key
+        elif any(not any(x["id"] == e["id"] for x in prev) for e in ents):
+            return ("spec", where + "an entry appeared without a request: " + a)
+        # the reported wait
+        if kind in ("rx", "io"):
+            if not wt.isdigit():
+                return ("spec", where + "no wait reported")
+            pend = [e["delay"] - now for e in ents if e["delay"] != 0]
+            if any(d <= 0 for d in pend):
+                return ("spec", where + "an entry that is due is still registered: " + a)
+            if pend and not (0 < int(wt) <= min(pend)):
+                return ("spec", where + "reported wait %s, earliest deadline in %d" % (wt, min(pend)))
+        prev, prevraw = ents, a
+    return None
+
+
+def judge_async(ctx, c):
+    i, m = c["impl"], c["model"]
+    if m == "malformed":
+        return None
+    if i is not None and i.startswith("crash"):
+        return ("spec", "implementation crashed: %s" % i[:200])
+    if m is None or not (m.startswith("tx=") or m.startswith("oos")):
+        return None if m == i else ("tie", "implementation %s but model M says %s" % (short(i), short(m)))
+    ms, is_ = m.split(SEP), (i or "").split(SEP)
+    # the property, read off the implementation's report up to the first event the model puts out of scope
+    n_ok = ms.index("oos") if "oos" in ms else len(ms)
+    if n_ok and len(is_) >= n_ok:
+        v = judge_async_spec(c["input"], SEP.join(is_[:n_ok]))
+        if v:
+            return v
+    if "oos" not in ms and len(is_) != len(ms):
+        return ("tie", "implementation printed %d outcomes, the model %d" % (len(is_), len(ms)))
+    for k, (ik, mk) in enumerate(zip(is_, ms)):
+        if mk == "oos":
+            break
+        if norm_impl(ik, mk) != mk:
+            return ("tie", "event %d of %d: implementation %s but model M says %s" % (k + 1, len(ms), short(ik), short(mk)))
+    return None
+
+
 def gen_mcast_case(rng):
     """per-resource multicast configuration (coap_mcast_per_resource): a multicast request that reaches a handler of a
     resource with some combination of the multicast flags, handler verdicts of every class, with/without No-Response"""
@@ -423,6 +652,7 @@ def generate(ctx, escalate=False):
         n *= 2
     out = [gen_case(ctx.rng) if ctx.rng.random() < 0.92 else gen_mcast_case(ctx.rng) for _ in range(n)]
     out += [gen_seq(ctx.rng) for _ in range(n // 4)]
+    out += [gen_async(ctx.rng) for _ in range(n // 5)]
     return out
 
 
@@ -460,6 +690,8 @@ SEP = " ;; "
 def judge(ctx, c):
     if c["input"].startswith("srvq "):
         return judge_seq(ctx, c)
+    if c["input"].startswith("asq "):
+        return judge_async(ctx, c)
     return judge_one(c["impl"], c["model"], c["spec"])
 
 
@@ -521,6 +753,8 @@ def short(s):
 
 def nontrivial(c):
     m = c["model"] or ""
+    if c["input"].startswith("asq "):
+        return " a=" in m and (" a=-" not in m.split(SEP)[0] or ">" in m or any(" a=-" not in x for x in m.split(SEP)))
     return m.startswith("tx=") and any(x != "tx=- h=-" for x in m.split(SEP))
 
 
@@ -528,6 +762,11 @@ def classify(c):
     m = c["model"] or ""
     if not m.startswith("tx="):
         return m[:10]
+    if c["input"].startswith("asq "):
+        ms = m.split(SEP)
+        return "asq|%s%s%s" % ("fired" if any("h=re" in x or "/re" in x for x in ms) else "nofire",
+                                "|ackagain" if any(x.startswith("tx=A:0:") and " h=- " in x for x in ms[1:]) else "",
+                                "|oos" if "oos" in ms else "")
     if c["input"].startswith("srvq "):
         ms = m.split(SEP)
         return "seq%d|%s" % (len(ms), classify({"input": "srv", "model": ms[-1]}))
@@ -570,6 +809,8 @@ def shrink(ctx, case):
     from vlib.runner import diff_side
     import props.C10 as me
     best = case
+    if case["input"].startswith("asq "):
+        return shrink_async(ctx, case)
     if case["input"].startswith("srvq "):
         return shrink_seq(ctx, case)
     for _ in range(4):
@@ -655,6 +896,50 @@ def shrink_seq(ctx, case):
     return best
 
 
+def shrink_async(ctx, case):
+    """drop events / resources of an `asq` line while the implementation still contradicts the property"""
+    from vlib.runner import diff_side
+    import props.C10 as me
+    best = case
+    for _ in range(8):
+        w = best["input"].split()
+        evs = asq_events(best["input"])
+        if not evs:
+            break
+        head = w[:8]
+        join = lambda h, es: " ".join(h + [x for k_, ws in es for x in [k_] + ws])
+        cands = [join(head, evs[:j] + evs[j + 1:]) for j in range(len(evs)) if len(evs) > 1]
+        if head[6] != "-":
+            rs = head[6].split(";")
+            for i in range(len(rs)):
+                cands.append(join(head[:6] + [";".join(rs[:i] + rs[i + 1:]) or "-"] + head[7:], evs))
+        if head[4] != "-":
+            cands.append(join(head[:4] + ["-"] + head[5:], evs))
+        for j, (k_, ws) in enumerate(evs):
+            if k_ != "rx":
+                continue
+            try:
+                typ, code, mid, tok, opts, pl = parse_udp(bytes.fromhex(ws[3]))
+            except Exception:
+                continue
+            for i in range(len(opts)):
+                d2 = hx(G.encode("udp", typ, code, mid, tok, opts[:i] + opts[i + 1:], pl))
+                cands.append(join(head, evs[:j] + [(k_, ws[:3] + [d2])] + evs[j + 1:]))
+            if pl:
+                cands.append(join(head, evs[:j] + [(k_, ws[:3] + [hx(G.encode("udp", typ, code, mid, tok, opts, b""))])] + evs[j + 1:]))
+        found = None
+        for cc in diff_side(ctx, me, cands[:300]):
+            v = judge(ctx, cc)
+            if v and v[0] == "spec" and len(cc["input"]) < len(best["input"]):
+                cc["why"] = v[1]
+                found = cc
+                break
+        if not found:
+            break
+        best = found
+    return best
+
+
 def parse_udp(b):
     typ, tkl, code, mid = b[0] >> 4 & 3, b[0] & 15, b[1], b[2] << 8 | b[3]
     i = 4
@@ -683,7 +968,9 @@ REQUIRED_THEOREMS = ["decision_eq_spec", "at_most_one_reply", "reply_echoes_toke
                      "escape_tables_legal", "escape_restrict_id", "restricted_tables_legal", "constructor_presets_match_api",
                      "handlers_as_registered", "impl_table_eq", "decisionA_eq_specA", "nothing_found_is_fresh", "sequence_eq_spec",
                      "pending_of_others_irrelevant", "deferred_retransmission_acked", "history_changes_only_by_ack_again",
-                     "reply_shape_any_history"]
+                     "reply_shape_any_history", "async_fires_exactly_the_due", "async_fired_were_registered",
+                     "async_wait_le_earliest_deadline", "async_one_entry_per_session_token",
+                     "async_retransmission_no_second_entry", "async_retransmission_acked_only"]
 RULE = ("one line = one fresh server context + one request datagram: resource tables (0-4 ordinary resources from a pool of paths incl. "
         "'', '.well-known/core', percent-escaped and empty segments; per-method handler masks; observable; all multicast flag "
         "combinations; OSCORE-only; unknown-resource handler with/without HANDLE_WELLKNOWN_CORE; proxy resource with host name), "
@@ -697,6 +984,10 @@ RULE = ("one line = one fresh server context + one request datagram: resource ta
         "message ids from small per-line pools (same / other peer with the same token, prefix tokens, empty token), earlier "
         "datagrams mostly deferred by their handler (coap_register_async), proxied Confirmable duplicates; every datagram's "
         "transmissions (and their destination) and handler call compared; "
+        "+ n/5 `asq` lines = one server context, 3-11 events: request datagrams from up to 3 peers whose handler defers "
+        "(coap_register_async with delay 0/1/10/100/500/1000/2500 ticks) or answers, retransmissions (same bytes, fresh "
+        "message id, other peer), virtual time steps 0-5000 ticks, coap_async_trigger / coap_async_set_delay / "
+        "coap_free_async on the k-th entry, session idle timeout 1-3 s, Hop-Limit and No-Response options; "
         "non-trivial = distinct line on which the model prescribes a reply or a handler call")
 TRUSTED_BASE = ["Lean 4.33 kernel; axioms allowed: propext, Classical.choice, Quot.sound (audited per theorem each run)",
                 "T1 extractor extract/server.c (evaluation of coap_option_check_critical, coap_option_check_repeatable, "
@@ -706,7 +997,8 @@ TRUSTED_BASE = ["Lean 4.33 kernel; axioms allowed: propext, Classical.choice, Qu
                 "decoded with libcoap's own parser, C03), the generator and the comparison in props/C10.py",
                 "M (CoapVerif/Model/Server.lean) is a hand transcription of coap_dispatch (request path), handle_request, no_response, "
                 "coap_new_error_response, check_token_size, coap_option_check_critical, coap_get_uri_path/_query, the async lookup "
-                "(coap_find_async_lkd by session + token) and last_con_mid; checked against the compiled code only on the cases run"]
+                "(coap_find_async_lkd by session + token) and last_con_mid; Model/Async.lean of coap_async.c, coap_check_async, the "
+                "async branch of handle_request and the idle-session reaper; checked against the compiled code only on the cases run"]
 ASSUMPTIONS = ["UDP endpoint of a fresh context per line: no OSCORE context, block mode 0 (application handles blocks), Q-Block not "
                "enabled, no Echo pending; earlier datagrams at the context (op srvq) are requests whose handler defers indefinitely "
                "(coap_register_async delay 0, never triggered) or answers directly; observers, caches and retransmission of separate "
@@ -723,4 +1015,5 @@ SPEC_DECISIONS = ["D1 precedence of simultaneous error conditions", "D2 recognis
                   "D11 a request of the same peer with the token of a request whose response is deferred is a retransmission: "
                   "Empty ACK again if Confirmable, no handler; other peers / tokens unaffected",
                   "D12 deduplication only where libcoap does it: a duplicate (peer, message id) of a Confirmable request handed to "
-                  "the proxy handler is acknowledged again and not processed again"]
+                  "the proxy handler is acknowledged again and not processed again",
+                  "D13 a delayed invocation whose handler sets no response code is out of scope"]
